@@ -179,10 +179,21 @@ func init() {
 		two, three := scenarios(ctx.Tier)
 		b2, b3 := 2, 1
 		if ctx.Tier == "thorough" {
-			b2, b3 = 3, 2
+			b3 = 2
 		}
 		for _, sc := range two {
 			engine.ExploreS(ctx, sc, engine.SConfig{Bound: b2, Shard: ctx.Shard, NShards: ctx.NShards, Deadline: ctx.Deadline})
+		}
+		if ctx.Tier == "thorough" {
+			// bound 3 on the pairs built from the shortest programs (the full menu at bound 3 is ~10^8 executions)
+			core := []program{"sc", "pc", "xsc", "sSc c"}
+			for i := 0; i < len(core); i++ {
+				for j := i; j < len(core); j++ {
+					sc := scenario([]program{core[i], core[j]})
+					sc.Name += "@3"
+					engine.ExploreS(ctx, sc, engine.SConfig{Bound: 3, Shard: ctx.Shard, NShards: ctx.NShards, Deadline: ctx.Deadline})
+				}
+			}
 		}
 		for _, sc := range three {
 			engine.ExploreS(ctx, sc, engine.SConfig{Bound: b3, Shard: ctx.Shard, NShards: ctx.NShards, Deadline: ctx.Deadline})
@@ -190,6 +201,15 @@ func init() {
 	})
 	hk.Replayers["C13"] = func(ctx *engine.Ctx, rp engine.Replay) []*engine.Finding {
 		two, three := scenarios("thorough")
-		return engine.ReplayScenario(append(two, three...), rp)
+		all := append(two, three...)
+		core := []program{"sc", "pc", "xsc", "sSc c"}
+		for i := 0; i < len(core); i++ {
+			for j := i; j < len(core); j++ {
+				sc := scenario([]program{core[i], core[j]})
+				sc.Name += "@3"
+				all = append(all, sc)
+			}
+		}
+		return engine.ReplayScenario(all, rp)
 	}
 }
